@@ -387,6 +387,7 @@ pub fn coset_table(
         result.table@.len() <= 100_000,
         valid(&result),
         forall|m: int, r: int| 0 <= m < relators@.len() && 0 <= r < result.table@.len() ==> #[trigger] trace(&result, r, relators@[m]@) == Some(r as usize),
+        forall|m: int| 0 <= m < subgroup_gens@.len() ==> trace(&result, 0, (#[trigger] subgroup_gens@[m])@) == Some(0usize),
 { unimplemented!() }
 
 type Edge = (usize, usize);
@@ -424,11 +425,20 @@ pub open spec fn fg_spec<T: DSet>(ds: &T, g: &FundamentalGroup) -> bool {
     &&& words_by_relators(ds, &g.edge_to_word, g.relators@)
 }
 pub uninterp spec fn fg_ngens<T: DSet>(ds: &T) -> int;
+pub uninterp spec fn fg_rels<T: DSet>(ds: &T) -> Seq<FreeWord>;        // the relators fundamental_group returns for ds (a function of ds)
 #[verifier::external_body]
 pub fn fundamental_group<T: DSym>(ds: &T) -> (g: FundamentalGroup)
     requires ds.wf(), base_complete(ds)
-    ensures fg_spec(ds, &g), g.ngens() == fg_ngens(ds)
+    ensures fg_spec(ds, &g), g.ngens() == fg_ngens(ds), g.relators@ == fg_rels(ds)
 { unimplemented!() }
+
+// "the cover belonging to a subgroup": t is a valid table of the presentation (every relator closes at every row) in which every one of the
+// GIVEN subgroup generators, traced from row 0, returns to row 0
+pub open spec fn sub_table(t: &CosetTable, rels: Seq<FreeWord>, subs: Seq<FreeWord>) -> bool {
+    &&& valid(t) && 1 <= t.table@.len() <= 100_000
+    &&& closes(t, rels)
+    &&& forall|m: int| 0 <= m < subs.len() ==> trace(t, 0, (#[trigger] subs[m])@) == Some(0usize)
+}
 
 //@ begin src/covers.rs :: - :: fn subgroup_cover | props=C05
 //@ rw R16 /^([ \t]*)-> PartialDSym$/\1-> (res: PartialDSym)/
@@ -440,6 +450,8 @@ pub fn subgroup_cover<T: DSym>(ds: &T, subgens: &Vec<FreeWord>)
         all_within(subgens@, fg_ngens(ds)),
     // C05: a covering of ds (with one sheet per row of the Todd-Coxeter table, at most 100_000: the enumeration aborts beyond), with the degrees of ds
     ensures exists|n: int| 1 <= n <= 100_000 && #[trigger] covers(&res, ds, n), cover_degrees(&res, ds),
+        // ... and it is the cover of THIS subgroup: one sheet per row of a table in which the given generators fix row 0
+        exists|t: CosetTable| #[trigger] sub_table(&t, fg_rels(ds), subgens@) && covers(&res, ds, t.table@.len() as int),
 {
     let g = fundamental_group(ds);
     proof {
@@ -463,7 +475,10 @@ pub fn subgroup_cover<T: DSym>(ds: &T, subgens: &Vec<FreeWord>)
             requires 1 <= n <= 100_000, 100_000 * ds.ssize() * (ds.sdim() + 1) <= usize::MAX, 100_000 * ds.ssize() < usize::MAX, ds.ssize() >= 1, ds.sdim() >= 0;
     }
     let __r = cover_for_table(ds, &table, &g.edge_to_word);
-    proof { assert(covers(&__r, ds, table.table@.len() as int)); }
+    proof {
+        assert(covers(&__r, ds, table.table@.len() as int)); // post-witness
+        assert(sub_table(&table, fg_rels(ds), subgens@)); // post-witness
+    }
     __r
 }
 //@ end
@@ -475,6 +490,7 @@ pub fn finite_universal_cover<T: DSym>(ds: &T) -> (res: PartialDSym)
     requires ds.wf(), base_complete(ds), ds.ssize() >= 1, ds.sdim() >= 0,
         100_000 * ds.ssize() * (ds.sdim() + 1) <= usize::MAX, 100_000 * ds.ssize() < usize::MAX,
     ensures exists|n: int| 1 <= n <= 100_000 && #[trigger] covers(&res, ds, n), cover_degrees(&res, ds),
+        exists|t: CosetTable| #[trigger] sub_table(&t, fg_rels(ds), Seq::<FreeWord>::empty()) && covers(&res, ds, t.table@.len() as int),
 {
     let __none: Vec<FreeWord> = vec![];
     subgroup_cover(ds, &__none)
